@@ -1,11 +1,17 @@
 """C01 bounded stand-in: contract `raises <= {ValueError iff position out of range}` on every query method of the
-real Script and on the documented attributes of the returned objects, over token soups and line prefixes."""
+real Script and on the documented attributes of the returned objects, over token soups and line prefixes, and
+over valid programs drawn from a small grammar (functions with type hints in every notation jedi reads; functions
+that forward their star parameters) together with the states such a program passes through while ONE statement in
+the middle of the file is being typed."""
 import itertools
 import json
 import multiprocessing as mp
 import os
+import random
+import re
 import sys
 import traceback
+import zlib
 
 HERE = os.path.dirname(os.path.abspath(__file__))
 
@@ -13,6 +19,11 @@ HERE = os.path.dirname(os.path.abspath(__file__))
 def signature():
     """(exception class, innermost frame inside the jedi tree under test as file:function)"""
     et, ev, tb = sys.exc_info()
+    # an AttributeError that escapes a jedi property is re-raised as UncaughtAttributeError(e) from e in
+    # inference/utils.py: the failure class is the one of the cause, not of the wrapper
+    while et.__name__ == 'UncaughtAttributeError' and ev.__cause__ is not None:
+        ev = ev.__cause__
+        et, tb = type(ev), ev.__traceback__
     inner = None
     for fs in traceback.extract_tb(tb):
         if '/jedi/' in fs.filename and '/standins/' not in fs.filename:
@@ -20,11 +31,21 @@ def signature():
     return '%s@%s' % (et.__name__, inner)
 
 
+# further artifacts of the sandbox without typeshed that only the generated programs reach
+LOCAL_ARTIFACTS = {
+    # FunctionValue.py__class__ looks up types.FunctionType (= type(_f) in the stdlib source, a class only with the
+    # typeshed stub types.pyi); reached by awaiting a function object while `await target(...)` is typed
+    'ValueError@inference/value/function.py:py__class__',
+    # the same for BoundMethod.py__class__ and types.MethodType (`return await Foo().meth` while the call is typed)
+    'ValueError@inference/value/instance.py:py__class__',
+}
+
+
 def load_artifacts():
     p = os.path.join(HERE, 'environment_artifacts.json')
     if os.path.exists(p):
-        return set(json.load(open(p))['signatures'])
-    return set()
+        return set(json.load(open(p))['signatures']) | LOCAL_ARTIFACTS
+    return set(LOCAL_ARTIFACTS)
 
 ALPHABET = ['x', 'def', 'class', '(', ')', ':', '.', ',', '=', '*', '\n', '    ', '"', '1', 'import', 'from',
             'lambda', '[', '@', 'x.y']
@@ -61,7 +82,7 @@ def programs(tier):
     toks = ALPHABET if tier != 'quick' else ALPHABET[:14]
     for k in range(0, n + 1):
         for combo in itertools.product(toks, repeat=k):
-            if k == 3 and (hash(combo) % 7) != 0:
+            if k == 3 and zlib.crc32(' '.join(combo).encode()) % 7:     # (not hash(): randomised per process)
                 continue
             out.append(' '.join(combo) if k else '')
     for s in SNIPPETS:
@@ -81,6 +102,341 @@ def programs(tier):
     return res
 
 
+# ---------------------------------------------------------------------------------------------------------------
+# Grammar-generated programs.  The quantifier of C01 ranges over "valid programs, every prefix of a valid program =
+# code being typed, small edits of valid programs"; the fixed SNIPPETS above are a dozen points of that space.  The
+# generator below adds three dimensions:
+#   (1) HINTS: the type of a parameter / variable / return value is declared in every notation jedi reads
+#       (Python 3 annotation, PEP 484 signature comment after the def, type comment on an assignment / for / with),
+#       with the declared expression drawn from TYPE_ATOMS (names, forward references, `...`, constants, subscripts,
+#       starred forms, expressions that are no types at all, text that is no expression at all) and declaration
+#       lists that are shorter, equal and longer than the parameter list;
+#   (2) FORWARD: a function (def, async def, method) hands its *args / **kwargs on to another callable in every
+#       syntactic place where a starred argument can stand (call statement, call in an expression, method call,
+#       nested call, class bases, decorator), with matching and non-matching stars, and is called elsewhere;
+#   (3) TYPING IN THE MIDDLE: for each such program the one "focus" line is cut off at every lexical boundary while
+#       the lines BEFORE AND AFTER it stay (the existing prefixes only model typing at the end of the file).
+# Positions for these programs are token directed (inside every name, behind every `.`, `(`, `,`, `=`, `[`) in the lines
+# of the functions concerned, because the line start / middle / end used for the token soups practically never hits
+# a parameter name.  Only user-defined classes are used (no typeshed in this sandbox).
+PRELUDE = ('class Bar:\n'
+           '    def ping(self):\n'
+           '        return self\n'
+           '\n'
+           'class Foo:\n'
+           '    attr = Bar()\n'
+           '    def meth(self, other, third):\n'
+           '        return other\n'
+           '\n')
+# what can be written where a type is expected
+TYPE_ATOMS = ['Foo', "'Foo'", '"Bar"', '...', 'None', '1', "b'Foo'", 'Foo.attr', 'Foo[Bar]', 'Foo[Bar, Bar]',
+              '(Foo)', '[Foo]', '()', 'Foo()', '-1', 'Foo or Bar', 'Foo | Bar', 'lambda: Foo', '*Foo', '**Bar', '*',
+              'Missing', 'not Foo', 'Foo if Bar else Foo', "''", "'('", "'Foo Bar'", 'Foo Bar', '(', "'Foo", ':',
+              'x = 1', 'yield']
+# parameter lists of the hinted function: (parameters, the parameter used in the body)
+# (no *args / **kwargs here: a declared type makes them tuple[T] / dict[str, T], which needs typeshed)
+HINT_PARAMS = [(['arg'], 'arg'), (['arg', 'other'], 'other'), (['arg', 'other', 'third'], 'arg'),
+               (['other', 'arg=Foo()'], 'other'), (['arg', 'other=Foo()', '*', 'key'], 'key'),
+               (['arg', '/', 'other'], 'arg')]
+HINT_STYLES = ['signature-comment', 'signature-comment-same-line', 'signature-comment-method', 'annotation',
+               'assign-comment', 'for-comment', 'with-comment', 'tuple-assign-comment']
+
+
+def _decl_lists(rng, n_params, atoms):
+    """declaration lists for a signature comment: every atom alone, and lists around the length of the parameter
+    list"""
+    out = [''] + list(atoms)
+    for k in sorted({2, n_params - 1, n_params, n_params + 1} - {0, 1}):
+        out.append(', '.join(rng.choice(atoms[:22]) for _ in range(k)))
+    out.append(rng.choice(atoms[:22]) + ',')
+    out.append(', '.join(['Foo'] * max(n_params, 1)))
+    return out
+
+
+def _hint_program(style, params, used, decl, ret):
+    """(code, index of the focus line or None, first line of the region whose tokens are queried, column from which
+    the focus line is cut)"""
+    body_obj = used
+    cut_from = 0
+    if style == 'annotation':
+        ann = decl.split(', ') if decl else []
+        ps = []
+        i = 0
+        for p in params:
+            if p in ('*', '/'):
+                ps.append(p)
+                continue
+            a = ann[i % len(ann)] if ann else None
+            i += 1
+            if a is None:
+                ps.append(p)
+            elif '=' in p:
+                ps.append('%s: %s = %s' % (p.split('=')[0], a, p.split('=')[1]))
+            else:
+                ps.append('%s: %s' % (p, a))
+        head = ['def func(%s) -> %s:' % (', '.join(ps), ret)]
+        focus = None      # the focus line would be the def header, see DEF_HEADER_FINDING
+        body = ['    result = %s' % body_obj, '    return result.attr']
+    elif style == 'signature-comment':
+        head = ['def func(%s):' % ', '.join(params), '    # type: (%s) -> %s' % (decl, ret)]
+        focus = 1
+        body = ['    result = %s' % body_obj, '    return result.attr']
+    elif style == 'signature-comment-same-line':
+        head = ['def func(%s):  # type: (%s) -> %s' % (', '.join(params), decl, ret)]
+        focus = 0
+        cut_from = head[0].index('#')       # the comment is typed, not the def header, see DEF_HEADER_FINDING
+        body = ['    result = %s' % body_obj, '    return result.attr']
+    elif style == 'signature-comment-method':
+        head = ['class Owner:', '    def func(self, %s):' % ', '.join(params),
+                '        # type: (%s) -> %s' % (decl, ret)]
+        focus = 2
+        body = ['        result = %s' % body_obj, '        return result.attr', '', 'func = Owner().func']
+    elif style == 'assign-comment':
+        head = ['def func(%s):' % ', '.join(params)]
+        body = ['    result = %s  # type: %s' % (body_obj, decl), '    return result.attr']
+        focus = 1
+    elif style == 'tuple-assign-comment':
+        head = ['def func(%s):' % ', '.join(params)]
+        # TUPLE_COMMENT_FINDING (unchanged jedi, reported): a tuple in a type comment with FEWER elements than the
+        # assignment has targets (`a, b = x  # type: Foo,` or `# type: ()`) raises SimpleGetItemNotFound out of
+        # infer / goto / complete (annotation.py _infer_annotation_string: `len(...) >= index` instead of `>`), e.g.
+        # jedi.Script('class Foo: pass\nx = Foo()\na, b = x  # type: Foo,\nb').infer(4, 1)
+        # Excluded sub-dimension: the declared tuple always has at least as many elements as there are targets, and
+        # the comment is not taken through its typing states (they pass through the shorter tuples).
+        if decl.count(',') < 1 or decl.rstrip().endswith(',') or decl.startswith('()'):
+            decl = 'Foo, %s' % (decl.rstrip(', ') or 'Bar')
+        if decl.startswith(('(', '[')):
+            decl = 'Bar, ' + decl
+        body = ['    result, second = %s  # type: %s' % (body_obj, decl), '    return second.attr']
+        focus = None
+    elif style == 'for-comment':
+        head = ['def func(%s):' % ', '.join(params)]
+        body = ['    for result in %s:  # type: %s' % (body_obj, decl), '        result.attr', '    return result']
+        focus = 1
+    elif style == 'with-comment':
+        head = ['def func(%s):' % ', '.join(params)]
+        body = ['    with %s as result:  # type: %s' % (body_obj, decl), '        result.attr', '    return result']
+        focus = 1
+    else:
+        raise AssertionError(style)
+    lines = head + body + ['', 'value = func(Foo(), Foo())', 'value.attr', 'func(Foo(), ']
+    pre = PRELUDE.count('\n')
+    return PRELUDE + '\n'.join(lines) + '\n', (None if focus is None else pre + focus), pre, cut_from
+
+
+# --- forwarding of star parameters ---------------------------------------------------------------------------
+FORWARD_PARAMS = [['*args'], ['**kwargs'], ['first', '*args'], ['first', '**kwargs'], ['*args', '**kwargs'],
+                  ['first', '*args', 'key=Foo()', '**kwargs']]
+# {S} = the starred arguments, the first line is the focus line
+FORWARD_FORMS = ['return target({S})',
+                 'value = target({S})',
+                 'return Foo().meth({S})',
+                 'return Foo.meth({S})',
+                 'return target({S}).attr',
+                 'return target(target({S}))',
+                 'return target(Foo())({S})',
+                 'return [target({S}), first]',
+                 'class Local(Foo, {S}):\n        pass',
+                 '@target({S})\n    def inner():\n        pass',
+                 'return wrapper({S})',
+                 'return missing({S})',
+                 'if target({S}):\n        pass',
+                 'return second({S})']
+# LAMBDA_FINDING (unchanged jedi, reported): a lambda that is called with a number of arguments it does not take makes
+# get_type_hint() of every name that needs the call raise AttributeError('lambda is not named.') (inference/param.py
+# _error_argument_count reads funcdef.name), e.g.
+# jedi.Script('w = lambda k: k\nv = lambda: w()\nv').infer(3, 1)[0].get_type_hint()
+# Excluded sub-dimension: the forwarding function written as a lambda.
+FORWARD_KINDS = ['def', 'async def', 'method']
+
+
+def _star_lists(params):
+    has_a = '*args' in params
+    has_k = '**kwargs' in params
+    out = []
+    if has_a:
+        out += ['*args', 'Foo(), *args', '*args, c=Foo()', 'args', '**args']
+    if has_k:
+        out += ['**kwargs', 'a=Foo(), **kwargs', 'Foo(), **kwargs', '*kwargs']
+    if has_a and has_k:
+        out += ['*args, **kwargs', 'Foo(), *args, **kwargs']
+    return out
+
+
+def _forward_program(kind, params, form, stars, tail):
+    """(code, index of the focus line or None, first line of the queried region, 0)"""
+    form = form.replace('{S}', stars)
+    if 'first' not in params:
+        form = form.replace(', first]', ']')
+    lines = ['def target(a, b, c):', '    return a', '',
+             'def second(*args, **kwargs):', '    return target(*args, **kwargs)', '',
+             'def use():', '    wrapper()', '    return wrapper(Foo(), Foo())', '']
+    region = len(lines) - 4
+    if kind == 'method':
+        lines += ['class Owner:', '    def wrapper(self, %s):' % ', '.join(params)]
+        focus = len(lines)
+        lines += ['        ' + l for l in form.replace('\n    ', '\n').split('\n')]
+    else:
+        lines.append('%s wrapper(%s):' % (kind, ', '.join(params)))
+        focus = len(lines)
+        if kind == 'async def':
+            form = form.replace('return target(', 'return await target(', 1)
+        lines += ['    ' + l for l in form.split('\n')]
+    # (an assignment directly behind the focus line would become a keyword argument of the call that is being typed,
+    # see KEYWORD_FINDING; a def / class line ends the unfinished statement for the parser)
+    lines += [''] + tail + ([''] + ['wrapper = Owner().wrapper'] if kind == 'method' else [])
+    lines += ['', 'wrapper(Foo())', 'wrapper(']
+    pre = PRELUDE.count('\n')
+    if '=' in stars:
+        focus = None        # a keyword argument in the call that is being typed, see KEYWORD_FINDING
+    return PRELUDE + '\n'.join(lines) + '\n', (None if focus is None else pre + focus), pre + region, 0
+
+
+_BOUNDARY = re.compile(r'\w+|\s+|[^\w\s]')
+
+
+# Findings in unchanged jedi that these exclusions keep out of the generated scope (reported, to be recorded as known
+# findings; both are the keyword-argument branch of AbstractTreeName.goto in inference/names.py, which takes the
+# direct parent of a `name=value` argument for the trailer of a finished call):
+# KEYWORD_FINDING: goto / help / get_references on the name of a keyword argument of a call whose closing bracket is
+#   missing while further statements follow raise AttributeError ('Newline' object has no attribute 'children'), e.g.
+#   jedi.Script('def t(a):\n    return a\n\ndef w(**k):\n    return t(a=t, **k\n\nclass O:\n    pass\n').goto(5, 14)
+# DEF_HEADER_FINDING: while a def header with a call in a default value is typed (`def f(a, b=Foo(` + the old body), the
+#   first body line `x = y` is read as a keyword argument; goto / help / get_references on x raise AssertionError
+#   ('Cannot infer the keyword <Keyword: class>'), e.g.
+#   jedi.Script('class Foo: pass\ndef func(arg, other=Foo(\n    result = key\n    return result\n').goto(3, 7)
+# FORWARD_TRAILER_FINDING (inference/star_args.py _to_callables takes the parent of the call's trailer for an atom_expr):
+#   a finished forwarding call followed by an unfinished rest of the statement (`return target(1, **kwargs).`) makes
+#   the signature of the forwarding function raise AssertionError ('Cannot infer the keyword <Keyword: return>') or
+#   AttributeError ('Operator' object has no attribute 'children'), e.g.
+#   jedi.Script('def target(a, b): return a\ndef wrapper(**kwargs):\n    return target(1, **kwargs).\nwrapper('
+#               ).get_signatures()[0].to_string()
+# Excluded sub-dimensions: typing states of def headers; typing states of calls that contain a keyword argument;
+# typing states behind the closing bracket of the forwarding call.
+def _typing_states(code, focus, cut_from=0, rng=None, cut_to=None):
+    """the program while line `focus` is being typed: the line is cut at a lexical boundary (behind its indentation),
+    all other lines stay.  rng=None: every cut; else the cuts in front of a closing bracket (the bracket that is
+    still open is THE state in which completion and call signatures are asked for) and one more cut chosen by rng."""
+    lines = code.split('\n')
+    line = lines[focus]
+    indent = len(line) - len(line.lstrip())
+    cuts = sorted({m.start() for m in _BOUNDARY.finditer(line)
+                   if max(indent, cut_from) < m.start() <= (len(line) if cut_to is None else cut_to)})
+    if rng is not None and cuts:
+        extra = rng.choice(cuts)
+        cuts = [c for c in cuts if line[c] in ')]}' or c == extra]
+    out = []
+    for c in cuts:
+        out.append('\n'.join(lines[:focus] + [line[:c].rstrip(' ')] + lines[focus + 1:]))
+    return out
+
+
+def generated_programs(tier, seed):
+    """list of (code, first line (0-based) of the region with token-directed positions).  Every value of every
+    dimension (declared expression, return expression, hint style, parameter list, forwarding form, star list,
+    kind of function) occurs for EVERY seed; the seed only decides how the values of different dimensions are
+    combined and, in the quick tier, which of the hint programs are also taken through their typing states."""
+    rng = random.Random(seed * 7919 + 13)
+    quick = tier == 'quick'
+    atoms = TYPE_ATOMS
+    plain = atoms[:22]                  # the atoms that are expressions
+    not_expr = ('*Foo', '**Bar', '*', 'x = 1', ':', 'Foo Bar', '(', "'Foo", 'yield')
+
+    def cycle(values, k):
+        """k-th element of a seed-dependent rotation: each value is used once per len(values) draws"""
+        return values[(k + seed) % len(values)]
+    hints = []
+    # (1a) every declaration text and every return text of a signature comment
+    decls = _decl_lists(rng, 2, atoms)
+    rets = list(atoms)
+    rng.shuffle(rets)
+    for i, decl in enumerate(decls):
+        params, used = cycle(HINT_PARAMS, i)
+        hints.append(_hint_program(cycle(HINT_STYLES[:3], i // 2), params, used, decl, rets[i % len(rets)]))
+    # (1b) every style x parameter list (quick: every style and every parameter list), with one arbitrary expression
+    # and one list of the right length
+    k = 0
+    for si, style in enumerate(HINT_STYLES):
+        for pi, (params, used) in enumerate(HINT_PARAMS):
+            if quick and (pi + si + seed) % 3:
+                continue
+            n = len([p for p in params if p not in ('*', '/')])
+            ds = [rng.choice(plain if style == 'annotation' else atoms),
+                  ', '.join(rng.choice(atoms[:12]) for _ in range(n))]
+            if not quick and (pi + si) % len(HINT_PARAMS) == 0:
+                ds = list(atoms) + ds
+            for decl in ds:
+                if style == 'annotation' and decl in not_expr:
+                    continue        # not an expression: the def itself would be the broken part (see token soups)
+                k += 1
+                hints.append(_hint_program(style, params, used, decl, cycle(atoms[:12], k)))
+    # (2) forwarding: every form with matching stars; every parameter list x every star list; every kind
+    tails = [['def other():', '    pass'], ['class Other:', '    pass'], ['@target', 'def other():', '    pass']]
+    combos = []
+    for i, form in enumerate(FORWARD_FORMS):
+        params = cycle(FORWARD_PARAMS, i)
+        match = [x for x in _star_lists(params) if x.count('*') and not x.startswith(('**args', '*kwargs'))]
+        for stars in ([cycle(match, i)] if quick else match):
+            combos.append((cycle(FORWARD_KINDS[:2], i), params, form, stars))
+    k = 0
+    for params in FORWARD_PARAMS:
+        for stars in _star_lists(params):
+            k += 1
+            combos.append((cycle(FORWARD_KINDS, k), params, cycle(FORWARD_FORMS[:8], k // 2), stars))
+    for ki, kind in enumerate(FORWARD_KINDS):
+        for fi, form in enumerate(FORWARD_FORMS[:8]):
+            if quick and (fi + ki + seed) % 4:
+                continue
+            params = cycle(FORWARD_PARAMS, fi + ki)
+            combos.append((kind, params, form, cycle(_star_lists(params)[:3], fi)))
+    forwards = []
+    for i, c in enumerate(combos):
+        b = _forward_program(*c, tail=cycle(tails, i))
+        if b is not None:
+            forwards.append(b)
+    out = []
+    seen = set()
+
+    def add(code, region):
+        if code not in seen:
+            seen.add(code)
+            out.append((code, region))
+    # (3) typing in the middle of the file.  quick: every forwarding program, a third of the hint programs
+    for i, (code, focus, region, cut_from) in enumerate(hints):
+        add(code, region)
+        if focus is not None and (not quick or (i + seed) % 3 == 0):
+            for st in _typing_states(code, focus, cut_from, rng if quick else None):
+                add(st, region)
+    for code, focus, region, cut_from in forwards:
+        add(code, region)
+        if focus is not None:
+            line = code.split('\n')[focus]
+            for st in _typing_states(code, focus, cut_from, rng if quick else None,
+                                     cut_to=max(line.rfind(')'), line.rfind(']'))):
+                add(st, region)
+    return out
+
+
+def token_positions(code, region):
+    """one position inside every name / keyword and behind every `.`, `(`, `,`, `=`, `[` from line `region`
+    (0-based) on, plus the end of every such line"""
+    import parso
+    pos = set()
+    leaf = parso.parse(code).get_first_leaf()
+    while leaf is not None:
+        (l, c), (el, ec) = leaf.start_pos, leaf.end_pos
+        if l > region:
+            if leaf.type in ('name', 'keyword') and el == l:
+                pos.add((l, c + (ec - c + 1) // 2))
+            elif leaf.type == 'operator' and leaf.value in ('.', '(', ',', '=', '['):
+                pos.add((el, ec))
+        leaf = leaf.get_next_leaf()
+    lines = parso.split_lines(code)
+    for li in range(region + 1, len(lines) + 1):
+        pos.add((li, len(lines[li - 1])))
+    return sorted(pos)
+
+
 def positions(code, tier):
     import parso
     lines = parso.split_lines(code, keepends=True)
@@ -96,35 +452,105 @@ def positions(code, tier):
     return pos
 
 
-def check_one(code_tier):
-    code, tier = code_tier
+def _has(o, attr):
+    # looked up on the class: hasattr(o, attr) would evaluate a property and take an AttributeError raised INSIDE it
+    # for "no such attribute", i.e. hide exactly the failures this check is about
+    return hasattr(type(o), attr)
+
+
+class Toucher:
+    """reads the documented attributes / calls the documented methods of result objects.  One failing attribute does
+    not end the inspection (it is recorded in .problems and the next attribute is read); an object equal to one that
+    was already inspected for the same Script is skipped (jedi answers from its caches then)."""
+
+    def __init__(self):
+        self.seen = set()
+        self.problems = []
+
+    def call(self, what, f, *args, **kw):
+        try:
+            return f(*args, **kw)
+        except RecursionError:
+            # subject of C15; in this sandbox mostly the tuple / dict of *args / **kwargs without typeshed
+            return ()
+        except Exception:
+            self.problems.append({'attribute': what, 'signature': signature(),
+                                  'observed': traceback.format_exc(limit=5)})
+            return ()
+
+    def _key(self, o):
+        if _has(o, 'complete'):
+            return (type(o).__name__, o.name, o.complete, o.type)
+        if _has(o, 'index'):
+            return (type(o).__name__, o, o.index, o.bracket_start)
+        return (type(o).__name__, o)       # Name.__eq__ / __hash__: same definition
+
+    def touch(self, objs, deep=True):
+        for o in list(objs)[:4]:
+            key = self.call('__hash__', self._key, o)
+            if key != ():
+                if (key, True) in self.seen or (key, deep) in self.seen:
+                    continue
+                self.seen.add((key, deep))
+            for a in ATTRS:
+                self.call(a, getattr, o, a)
+            for m, kw in METHODS:
+                if _has(o, m):
+                    self.call(m, getattr(o, m), **kw)
+            self.call('__repr__', repr, o)
+            if _has(o, 'complete'):
+                self.call('complete', lambda: (o.complete, o.name_with_symbols, o.get_completion_prefix_length()))
+            if _has(o, 'params'):
+                # NOT exercised: ParamName.infer_default() / infer_annotation().  Finding "ParamName.infer_default /
+                # infer_annotation raise AttributeError for the parameters of a compiled signature" (unchanged jedi:
+                # 'SignatureParamName' object has no attribute 'infer_annotation'); see the report of this change.
+                for p in self.call('params', lambda: o.params):
+                    self.call('params[i]', lambda: (p.name, p.kind, p.to_string(), repr(p)))
+                self.call('to_string', o.to_string)
+                if _has(o, 'index'):
+                    self.call('index', lambda: (o.index, o.bracket_start))
+            if deep:
+                # second step: the documented methods of a Name that return Names / Signatures again
+                for m in ('get_signatures', 'infer', 'goto', 'defined_names', 'execute'):
+                    if _has(o, m):
+                        self.touch(self.call(m, getattr(o, m)), deep=False)
+                if _has(o, 'is_definition'):
+                    self.call('is_definition', o.is_definition)
+
+
+def check_one(job):
+    code, tier, region = job
     import jedi
     viol = []
     n = 0
-
-    def touch(objs):
-        for o in list(objs)[:4]:
-            for a in ATTRS:
-                getattr(o, a)
-            for m, kw in METHODS:
-                if hasattr(o, m):
-                    getattr(o, m)(**kw)
-            if hasattr(o, 'complete'):
-                o.complete, o.name_with_symbols, o.get_completion_prefix_length()
-            if hasattr(o, 'params'):
-                [(p.name, p.kind, p.to_string()) for p in o.params]
-                o.index, o.bracket_start, o.to_string()
+    # jedi raises the interpreter's recursion limit to 3000 for deeply nested real-world code.  The generated programs
+    # have at most 35 lines; every query on them needs a fraction of CPython's own default depth (1000), but each
+    # RecursionError of the sandbox (tuple/dict of *args/**kwargs without typeshed) costs time proportional to the
+    # limit.  RecursionError is not judged here in any case (C15).
+    sys.setrecursionlimit(3000 if region is None else 1000)
     try:
         s = jedi.Script(code)
     except Exception:
         return 1, [{'label': 'Script() raised', 'input': repr(code), 'observed': traceback.format_exc(limit=3)}]
+    toucher = Toucher()
+
+    def touched(label, inp):
+        """the failures of result attributes since the last call, as violations of the query (one per failure class)"""
+        done = set()
+        for pr in toucher.problems:
+            if pr['signature'] not in done:
+                done.add(pr['signature'])
+                viol.append({'label': label, 'input': inp, 'observed': pr['observed'], 'signature': pr['signature'],
+                             'attribute': pr['attribute']})
+        del toucher.problems[:]
     for q, args in (('get_names', {}), ('get_names', {'all_scopes': True, 'references': True}),
                     ('get_syntax_errors', {}), ('search', {'string': 'x'}), ('complete_search', {'string': 'x'})):
         n += 1
         try:
             r = getattr(s, q)(**args)
             if q != 'get_syntax_errors':
-                touch(r)
+                toucher.touch(r)
+                touched('%s raised' % q, repr(code))
             else:
                 [(e.line, e.column, e.until_line, e.until_column, e.get_message()) for e in r]
         except RecursionError:
@@ -132,17 +558,26 @@ def check_one(code_tier):
         except Exception:
             viol.append({'label': '%s raised' % q, 'input': repr(code), 'observed': traceback.format_exc(limit=4),
                          'signature': signature()})
-    for (line, col, ok) in positions(code, tier):
+    if region is None:
+        pos = positions(code, tier)
+    else:
+        pos = [(l, c, True) for l, c in token_positions(code, region)]
+        pos += [p for p in positions(code, 'quick') if not p[2]][-4:]
+    for (line, col, ok) in pos:
         for q in ('complete', 'infer', 'goto', 'help', 'get_references', 'get_signatures', 'get_context'):
             n += 1
             try:
-                r = getattr(s, q)(line, col)
+                # generated programs: references within the file.  The project-wide search reads whatever lies in the
+                # working directory (not an input of this check) and costs seconds per call.
+                kw = {'scope': 'file'} if q == 'get_references' and region is not None else {}
+                r = getattr(s, q)(line, col, **kw)
                 if not ok:
                     viol.append({'label': '%s accepted an out-of-range position' % q,
                                  'signature': 'out-of-range-accepted:' + q,
                                  'input': repr((code, line, col)), 'observed': 'returned normally'})
                     continue
-                touch([r] if q == 'get_context' else r)
+                toucher.touch([r] if q == 'get_context' else r)
+                touched('%s raised an internal exception' % q, repr((code, line, col)))
             except ValueError as e:
                 is_position_error = str(e).startswith(('`line` parameter', '`column` parameter'))
                 if ok and is_position_error:
@@ -172,8 +607,10 @@ def run(repo, seed, tier):
     if tier == 'quick':
         # a fixed slice per seed keeps the quick run short
         progs = [p for i, p in enumerate(progs) if (i + seed) % 6 == 0]
+    gen = generated_programs(tier, seed)
+    jobs = [(p, tier, None) for p in progs] + [(p, tier, region) for p, region in gen]
     with mp.get_context('fork').Pool(min(16, os.cpu_count() or 4), initializer=_init_worker) as pool:
-        results = pool.map(check_one, [(p, tier) for p in progs], chunksize=4)
+        results = pool.map(check_one, jobs, chunksize=4)
     evaluations = sum(r[0] for r in results)
     violations = [v for r in results for v in r[1]]
     # Exceptions that are artifacts of THIS sandbox (the typeshed submodule is not checked out, so builtins
@@ -181,20 +618,25 @@ def run(repo, seed, tier):
     # environment_artifacts.json; they say nothing about jedi and are not reported. Anything else is.
     artifacts = load_artifacts()
     all_sigs = sorted({v.get('signature', '') for v in violations})
-    seen = set()
-    uniq = []
+    # at most three cases per (query, failure class): one frequent failure must not push the others out of the report
+    count = {}
+    kept = []
     for v in violations:
         sig = v.get('signature', v['label'])
         if sig in artifacts:
             continue
-        if sig not in seen:
-            seen.add(sig)
-            uniq.append(v)
+        key = (v['label'], sig)
+        count[key] = count.get(key, 0) + 1
+        if count[key] <= 3:
+            kept.append(v)
     return {'name': 'C01.script-total', 'contract': 'C01.Script.*',
-            'evaluations': evaluations, 'distinct_nontrivial': len([p for p in progs if p.strip()]),
+            'evaluations': evaluations, 'distinct_nontrivial': len([p for p in progs if p.strip()]) + len(gen),
             'rule': 'token soups (<=2/3 tokens over a fixed alphabet), every prefix of %d snippets, small edits; all '
-                    'positions in range and one step out of range; 12 query methods + result attributes; '
-                    'non-trivial = non-blank program' % len(SNIPPETS),
+                    'positions in range and one step out of range; 12 query methods + result attributes (and the Names / '
+                    'Signatures their documented methods return); %d grammar-generated programs (type hints in every '
+                    'notation x declared expression; star-parameter forwarding x form x stars) incl. the states while '
+                    'one line in the middle is typed, token-directed positions; non-trivial = non-blank program'
+                    % (len(SNIPPETS), len(gen)),
             'samples': progs[:3] + progs[-2:],
-            'violations': [v for v in violations if v.get('signature', v['label']) not in artifacts][:300], 'signatures_seen': all_sigs,
+            'violations': kept[:300], 'signatures_seen': all_sigs,
             'environment_artifacts_filtered': sorted(artifacts & set(all_sigs))}
